@@ -46,6 +46,18 @@ fn tick() {
     })
 }
 
+/// counts `n` steps at once (used where a loop round handles a value of size `n`, so that a value that
+/// doubles every round exhausts the budget instead of the memory)
+fn tick_by(n: u64) {
+    TICKS.with(|t| {
+        let m = t.get() + n;
+        t.set(m);
+        if m > TICK_BUDGET {
+            panic!("{}", HANG_MSG);
+        }
+    })
+}
+
 struct In {
     data: Vec<char>,
     pos: usize,
@@ -140,6 +152,15 @@ fn val_str(v: &V, out: &mut String) {
             val_str(x, out);
             out.push(')');
         }
+    }
+}
+
+fn vsize(v: &V) -> u64 {
+    match v {
+        V::Unit | V::Sym(_) | V::None => 1,
+        V::Pair(a, b) => 1 + vsize(a) + vsize(b),
+        V::List(l) => 1 + l.iter().map(vsize).sum::<u64>(),
+        V::Some(x) => 1 + vsize(x),
     }
 }
 
@@ -1237,6 +1258,367 @@ fn split_top(s: &str) -> Option<Vec<&str>> {
     Some(items)
 }
 
+
+// ------------------------------------------------------------------------------------------------
+// context data flow (model: RbModel.PcCtx): parsers of type Parser<In, V>
+// ------------------------------------------------------------------------------------------------
+
+#[derive(Clone, Copy, Debug, PartialEq)]
+enum CtxFn {
+    Id,
+    Wrap,
+    Const0,
+}
+
+#[derive(Clone, Debug, PartialEq)]
+enum CX {
+    Lift(X),
+    Ctx,
+    Iif(X, X),
+    MapCtx(CtxFn, Box<CX>),
+    NoCtx(Box<CX>),
+    ThenWith(Cmb, Box<CX>, Box<CX>),
+    ManyCtx(bool, Box<CX>),
+    And(Cmb, Box<CX>, Box<CX>),
+    Or2(Box<CX>, Box<CX>),
+    Seq2(Box<CX>, Box<CX>),
+    Map(MapFn, Box<CX>),
+}
+
+impl CX {
+    fn name(&self) -> &'static str {
+        match self {
+            CX::Lift(_) => "lift",
+            CX::Ctx => "ctx",
+            CX::Iif(..) => "iif",
+            CX::MapCtx(..) => "mapCtx",
+            CX::NoCtx(_) => "noCtx",
+            CX::ThenWith(..) => "thenWith",
+            CX::ManyCtx(..) => "manyCtx",
+            CX::And(..) => "and",
+            CX::Or2(..) => "or2",
+            CX::Seq2(..) => "seq2",
+            CX::Map(..) => "map",
+        }
+    }
+    fn sx(&self) -> String {
+        match self {
+            CX::Lift(e) => format!("(lift {})", e.sx()),
+            CX::Ctx => "ctx".into(),
+            CX::Iif(l, r) => format!("(iif {} {})", l.sx(), r.sx()),
+            CX::MapCtx(f, c) => format!(
+                "(mapCtx {} {})",
+                match f {
+                    CtxFn::Id => "id",
+                    CtxFn::Wrap => "wrap",
+                    CtxFn::Const0 => "const0",
+                },
+                c.sx()
+            ),
+            CX::NoCtx(c) => format!("(noCtx {})", c.sx()),
+            CX::ThenWith(m, l, r) => format!("(thenWith {} {} {})", cmb_s(*m), l.sx(), r.sx()),
+            CX::ManyCtx(an, c) => format!("(manyCtx {} {})", tf(*an), c.sx()),
+            CX::And(m, l, r) => format!("(and {} {} {})", cmb_s(*m), l.sx(), r.sx()),
+            CX::Or2(a, b) => format!("(or2 {} {})", a.sx(), b.sx()),
+            CX::Seq2(a, b) => format!("(seq2 {} {})", a.sx(), b.sx()),
+            CX::Map(f, c) => format!(
+                "(map {} {})",
+                match f {
+                    MapFn::Unit => "unit",
+                    MapFn::Wrap => "wrap",
+                    MapFn::Dup => "dup",
+                },
+                c.sx()
+            ),
+        }
+    }
+    fn depth(&self) -> usize {
+        match self {
+            CX::Lift(_) | CX::Ctx | CX::Iif(..) => 1,
+            CX::MapCtx(_, c) | CX::NoCtx(c) | CX::ManyCtx(_, c) | CX::Map(_, c) => 1 + c.depth(),
+            CX::ThenWith(_, a, b) | CX::And(_, a, b) | CX::Or2(a, b) | CX::Seq2(a, b) => 1 + a.depth().max(b.depth()),
+        }
+    }
+}
+
+type CP = BoxedParser<In, V, V, E>;
+
+fn bxc(p: impl Parser<In, V, Output = V, Error = E> + 'static) -> CP {
+    p.boxed()
+}
+fn bxc_list(p: impl Parser<In, V, Output = Vec<V>, Error = E> + 'static) -> CP {
+    p.map(V::List).boxed()
+}
+fn bxc_pair(p: impl Parser<In, V, Output = (V, V), Error = E> + 'static) -> CP {
+    p.map(|(a, b)| V::Pair(Box::new(a), Box::new(b))).boxed()
+}
+
+fn build_c(x: &CX) -> CP {
+    match x {
+        CX::Lift(e) => bxc(build(e).no_context::<V>()),
+        CX::Ctx => bxc(ctx_parser::<In, V, E>()),
+        CX::Iif(l, r) => {
+            let p = IifCtxParser::new::<In>(build(l), build(r));
+            bxc(Parser::<In, bool>::map_ctx(p, |v: &V| *v == V::Sym(0)))
+        }
+        CX::MapCtx(f, c) => {
+            let f = *f;
+            bxc(Parser::<In, V>::map_ctx(build_c(c), move |v: &V| match f {
+                CtxFn::Id => v.clone(),
+                CtxFn::Wrap => V::Some(Box::new(v.clone())),
+                CtxFn::Const0 => V::Sym(0),
+            }))
+        }
+        CX::NoCtx(c) => bxc(build_c(c).no_context::<V>()),
+        CX::ThenWith(m, l, r) => match m {
+            Cmb::Tuple => bxc_pair(build_c(l).then_with_in_context(build_c(r), TupleCombiner)),
+            Cmb::Left => bxc(build_c(l).then_with_in_context(build_c(r), KeepLeftCombiner)),
+            Cmb::Right => bxc(build_c(l).then_with_in_context(build_c(r), KeepRightCombiner)),
+        },
+        CX::ManyCtx(an, c) => bxc_list(ManyCtxParser::new::<In>(
+            build_c(c),
+            VecManyCombiner,
+            |v: &V| {
+                tick_by(vsize(v));
+                v.clone()
+            },
+            *an,
+        )),
+        CX::And(m, l, r) => match m {
+            Cmb::Tuple => bxc_pair(build_c(l).and_tuple(build_c(r))),
+            Cmb::Left => bxc(build_c(l).and_keep_left(build_c(r))),
+            Cmb::Right => bxc(build_c(l).and_keep_right(build_c(r))),
+        },
+        CX::Or2(a, b) => bxc(OrParser::new(vec![Box::new(build_c(a)), Box::new(build_c(b))])),
+        CX::Seq2(a, b) => bxc(seq2(build_c(a), build_c(b), |x, y| V::List(vec![x, y]))),
+        CX::Map(f, c) => match f {
+            MapFn::Unit => bxc(build_c(c).map_to_unit().map(|()| V::Unit)),
+            MapFn::Wrap => bxc(build_c(c).map(|v| V::Some(Box::new(v)))),
+            MapFn::Dup => bxc(build_c(c).map(|v: V| V::Pair(Box::new(v.clone()), Box::new(v)))),
+        },
+    }
+}
+
+/// `set_context(top)` (if any), then `parse` from `start`; a panic is a result
+fn run_real_c(x: &CX, top: Option<u8>, data: &[u8], start: usize) -> O {
+    let mut p = build_c(x); // context state lives in the parser: a fresh one per run
+    let mut input = In { data: data.iter().map(|k| chr(*k)).collect(), pos: start };
+    TICKS.with(|t| t.set(0));
+    let r = catch_unwind(AssertUnwindSafe(|| {
+        if let Some(k) = top {
+            p.set_context(&V::Sym(k));
+        }
+        p.parse(&mut input)
+    }));
+    match r {
+        Ok(Ok(v)) => O::Ok(v, input.pos),
+        Ok(Err(e)) => {
+            if e.fatal { O::Fatal(e.code, input.pos) } else { O::Soft(e.code, input.pos) }
+        }
+        Err(payload) => {
+            let msg = payload
+                .downcast_ref::<String>()
+                .cloned()
+                .or_else(|| payload.downcast_ref::<&str>().map(|s| s.to_string()))
+                .unwrap_or_else(|| "?".into());
+            if msg == HANG_MSG { O::Hang } else { O::Panic(msg.replace(['(', ')', ' '], "_")) }
+        }
+    }
+}
+
+fn cb(x: &CX) -> Box<CX> {
+    Box::new(x.clone())
+}
+
+fn c_leaves() -> Vec<CX> {
+    vec![
+        CX::Ctx,
+        CX::Lift(X::One(0)),
+        CX::Lift(X::Any),
+        CX::Lift(X::Pure),
+        CX::Lift(X::FailSoft(3)),
+        CX::Lift(X::FailFatal(4)),
+        CX::Iif(X::One(0), X::Any),
+        CX::Iif(X::FailSoft(3), X::PeekAny),
+    ]
+}
+fn c_unary(c: &CX) -> Vec<CX> {
+    vec![
+        CX::MapCtx(CtxFn::Id, cb(c)),
+        CX::MapCtx(CtxFn::Wrap, cb(c)),
+        CX::MapCtx(CtxFn::Const0, cb(c)),
+        CX::NoCtx(cb(c)),
+        CX::ManyCtx(false, cb(c)),
+        CX::ManyCtx(true, cb(c)),
+        CX::Map(MapFn::Wrap, cb(c)),
+    ]
+}
+fn c_binary(l: &CX, r: &CX) -> Vec<CX> {
+    vec![
+        CX::ThenWith(Cmb::Tuple, cb(l), cb(r)),
+        CX::ThenWith(Cmb::Right, cb(l), cb(r)),
+        CX::And(Cmb::Tuple, cb(l), cb(r)),
+        CX::Or2(cb(l), cb(r)),
+        CX::Seq2(cb(l), cb(r)),
+    ]
+}
+
+fn random_cexpr(rng: &mut Rng, depth: usize) -> CX {
+    if depth <= 1 || rng.chance(1, 8) {
+        return match rng.below(10) {
+            0..=2 => CX::Ctx,
+            3 | 4 => CX::Iif(random_expr(rng, 2), random_expr(rng, 2)),
+            _ => CX::Lift(random_expr(rng, 2)),
+        };
+    }
+    let d = depth - 1;
+    let cmb = *rng.pick(&[Cmb::Tuple, Cmb::Left, Cmb::Right]);
+    match rng.below(14) {
+        0 | 1 => CX::MapCtx(*rng.pick(&[CtxFn::Id, CtxFn::Wrap, CtxFn::Const0]), Box::new(random_cexpr(rng, d))),
+        2 => CX::NoCtx(Box::new(random_cexpr(rng, d))),
+        3..=5 => CX::ThenWith(cmb, Box::new(random_cexpr(rng, d)), Box::new(random_cexpr(rng, d))),
+        6..=8 => CX::ManyCtx(rng.chance(1, 2), Box::new(random_cexpr(rng, d))),
+        9 | 10 => CX::And(cmb, Box::new(random_cexpr(rng, d)), Box::new(random_cexpr(rng, d))),
+        11 => CX::Or2(Box::new(random_cexpr(rng, d)), Box::new(random_cexpr(rng, d))),
+        12 => CX::Seq2(Box::new(random_cexpr(rng, d)), Box::new(random_cexpr(rng, d))),
+        _ => CX::Map(*rng.pick(&[MapFn::Unit, MapFn::Wrap, MapFn::Dup]), Box::new(random_cexpr(rng, d))),
+    }
+}
+
+struct CJob {
+    x: CX,
+    top: Option<u8>,
+    maxlen: usize,
+    start: usize,
+    layer: &'static str,
+}
+
+fn process_c(ctx: &mut Ctx, jobs: &[CJob]) {
+    for chunk in jobs.chunks(400) {
+        let reqs: Vec<String> = chunk
+            .iter()
+            .map(|j| {
+                format!(
+                    "(pcc.runall {} {} 3 {} {})",
+                    j.x.sx(),
+                    j.top.map(|k| k.to_string()).unwrap_or_else(|| "none".into()),
+                    j.maxlen,
+                    j.start
+                )
+            })
+            .collect();
+        let answers = ask(&reqs);
+        for ((j, ans), req) in chunk.iter().zip(answers.iter()).zip(reqs.iter()) {
+            let inputs = ctx.inputs[j.maxlen].clone();
+            let model: Vec<&str> = match split_top(ans) {
+                Some(v) if v.len() == inputs.len() => v,
+                _ => {
+                    ctx.rep.fail(Failure {
+                        kind: Kind::ModelVsImpl,
+                        signature: "driver:bad-answer".into(),
+                        input: req.clone(),
+                        implementation: "-".into(),
+                        expected: ans.chars().take(200).collect(),
+                        note: "the driver did not answer one result per input".into(),
+                    });
+                    continue;
+                }
+            };
+            let xs = j.x.sx();
+            ctx.rep.bump(&format!("{}.top.{}", j.layer, j.x.name()));
+            ctx.rep.bump(&format!("{}.depth{}", j.layer, j.x.depth()));
+            for (idx, data) in inputs.iter().enumerate() {
+                if j.start > data.len() {
+                    continue;
+                }
+                let got = run_real_c(&j.x, j.top, data, j.start);
+                let got_s = if matches!(got, O::Panic(_)) { "panic".to_string() } else { got.canon() };
+                let end = match &got {
+                    O::Ok(_, q) | O::Soft(_, q) | O::Fatal(_, q) => *q as i64,
+                    _ => -1,
+                };
+                ctx.rep.case(Some(format!("C|{}|{:?}|{}|{}|{}", xs, j.top, j.start, got.kind(), end)));
+                ctx.rep.bump(&format!("ctx.outcome.{}", got.kind()));
+                let case_input = format!("cexpr={} top={:?} input={:?} start={}", xs, j.top, data, j.start);
+                if model[idx] != got_s {
+                    ctx.rep.fail(Failure {
+                        kind: Kind::ModelVsImpl,
+                        signature: format!("modelctx:{}", j.x.name()),
+                        input: case_input.clone(),
+                        implementation: format!("{} [{}]", got_s, if let O::Panic(m) = &got { m.as_str() } else { "" }),
+                        expected: model[idx].to_string(),
+                        note: "RbModel.PcCtx.runTop disagrees with the real combinator (result, position afterwards)".into(),
+                    });
+                }
+                // the data flow itself, on the real code: `l.then_with_in_context(ctx_parser(), ..)` hands the
+                // left value to the right side, which returns it without consuming
+                if let CX::ThenWith(m, l, r) = &j.x {
+                    if **r == CX::Ctx {
+                        let left = run_real_c(l, j.top, data, j.start);
+                        let expected = match left {
+                            O::Ok(a, p1) => O::Ok(comb(*m, a.clone(), a), p1),
+                            o => o,
+                        };
+                        let exp_s = if matches!(expected, O::Panic(_)) { "panic".to_string() } else { expected.canon() };
+                        if exp_s != got_s {
+                            ctx.rep.fail(Failure {
+                                kind: Kind::ImplVsProperty,
+                                signature: "ctxflow:thenWith".into(),
+                                input: case_input.clone(),
+                                implementation: got_s.clone(),
+                                expected: exp_s,
+                                note: "then_with_in_context sets the right side's context to the left side's value".into(),
+                            });
+                        }
+                    }
+                }
+                // `many_ctx` over the context switch: every round runs under the previous element (the default
+                // context, the empty list, first) — stepped here with the two context-free branches run separately
+                if let CX::ManyCtx(an, body) = &j.x {
+                    if let CX::Iif(l, r) = &**body {
+                        let (mut pl, mut pr) = (build(l), build(r));
+                        let mut prev = V::default();
+                        let mut vals: Vec<V> = vec![];
+                        let mut q = j.start;
+                        let mut rounds = 0;
+                        let expected = loop {
+                            let o = if prev == V::Sym(0) { run_real(&mut pl, data, q) } else { run_real(&mut pr, data, q) };
+                            match o {
+                                O::Ok(v, q2) => {
+                                    vals.push(v.clone());
+                                    prev = v;
+                                    q = q2;
+                                }
+                                O::Soft(e, q2) => {
+                                    break if vals.is_empty() && !*an { O::Soft(e, q2) } else { O::Ok(V::List(vals), q2) };
+                                }
+                                o => break o,
+                            }
+                            rounds += 1;
+                            if rounds > 2 * data.len() + 5 {
+                                break O::Hang;
+                            }
+                        };
+                        if expected.canon() != got_s && !matches!(expected, O::Panic(_)) {
+                            ctx.rep.fail(Failure {
+                                kind: Kind::ImplVsProperty,
+                                signature: "ctxflow:manyCtx".into(),
+                                input: case_input.clone(),
+                                implementation: got_s.clone(),
+                                expected: expected.canon(),
+                                note: "many_ctx sets the body's context to the previous element before every round".into(),
+                            });
+                        }
+                    }
+                }
+                if idx == 7 && ctx.rep.samples.len() < 12 && j.x.depth() >= 2 {
+                    ctx.rep.sample(J::s(format!("{} top={:?} on {:?} -> {}", xs, j.top, data, got_s)));
+                }
+            }
+        }
+    }
+}
+
 fn check_job(ctx: &mut Ctx, j: &Job, answer: &str) {
     let x = &j.x;
     let xs = x.sx();
@@ -1474,6 +1856,40 @@ fn main() {
         "step budget per run {}; the longest terminating run took {} steps",
         TICK_BUDGET,
         MAX_TICKS.with(|m| m.get())
+    ));
+
+    // ---- layer ctx: context data flow (RbModel.PcCtx) --------------------------------------------
+    let lv = c_leaves();
+    let mut cx: Vec<CX> = lv.clone();
+    for c in &lv {
+        cx.extend(c_unary(c));
+    }
+    for l in &lv {
+        for r in &lv {
+            cx.extend(c_binary(l, r));
+        }
+    }
+    let n_cx = cx.len();
+    let mut cjobs: Vec<CJob> = vec![];
+    for x in &cx {
+        for top in [None, Some(0u8), Some(1u8)] {
+            cjobs.push(CJob { x: x.clone(), top, maxlen: 4, start: 0, layer: "ctx2" });
+        }
+    }
+    let n_rnd = if thorough { 30_000 } else { 2_000 };
+    for k in 0..n_rnd {
+        let x = random_cexpr(&mut rng, 3 + (k % 2));
+        let top = match rng.below(3) {
+            0 => None,
+            1 => Some(0u8),
+            _ => Some(1u8),
+        };
+        cjobs.push(CJob { x, top, maxlen: 4, start: k % 2, layer: "ctxrnd" });
+    }
+    process_c(&mut ctx, &cjobs);
+    ctx.rep.exhaustive_parts.push(format!(
+        "context layer: all {} context expressions of depth <= 2 (8 leaves; map_ctx x3, no_context, many_ctx x2, map; then_with x2, and, OrParser, seq2) x top context none/0/1 x all 121 inputs of length <= 4",
+        n_cx
     ));
     eprintln!("max ticks of a terminating run: {}", MAX_TICKS.with(|m| m.get()));
     eprintln!("total: model {:.1}s real {:.1}s", ctx.t_model, ctx.t_real);
